@@ -237,3 +237,37 @@ def k4(ctx: Ctx, K: Kinds):
              ("keep_blank_values", ("const", True)) in v[3] for _s, v, _n in r.returns) and bool(r.returns)
     ctx.ob(rule, fi.qual, "parsed query", ok, "the query mapping is not parse_qsl(raw query, keep_blank_values=True)", where(fi, fi.node),
            sample="parse_qsl(self._query, keep_blank_values=True)")
+
+
+def k5(ctx: Ctx, K: Kinds):
+    """Caller-asserted encoding (OPQ) arises only from the documented `encoded` parameters: a helper's own `encoded`
+    parameter is bound, at every call site, to a literal False / its default or to the caller's documented flag."""
+    from ..kinds import ENCODED_FLAG
+    model = ctx.model
+    rule = "K5"
+    ctx.rule(rule, floor=2, what="`encoded` of internal helpers is only ever the caller's documented flag or False")
+    documented = {"_url.URL.__new__", "_url.URL.build", "_url.URL.with_path", "_url.URL.joinpath"}
+    helpers = [q for q in ENCODED_FLAG if q not in documented]
+    for q in helpers:
+        if not model.has_func(q):
+            raise AnalysisError(f"anchor vanished: {q}")
+        name = q.rsplit(".", 1)[1]
+        for fi in funcs(model):
+            r = analyze(model, fi)
+            seen = set()
+            for e in r.by_kind("call"):
+                if not (e.func[0] == "attr" and e.func[1][0] == "param" and e.func[2] == name):
+                    continue
+                if id(e.node) in seen:
+                    continue
+                seen.add(id(e.node))
+                ctx.instance(rule)
+                target = model.func(q)
+                params = [p for p in target.params if p not in ("self", "cls")]
+                bound = dict(zip(params, e.args))
+                bound.update({kw: v for kw, v in e.kwargs if kw})
+                v = bound.get("encoded")
+                ok = v is None or v == ("const", False) or (v == ("param", "encoded") and fi.qual in documented)
+                ctx.ob(rule, fi.qual, show(e.value)[:80], ok,
+                       f"{name}() is told its text is already encoded by something other than a documented `encoded` flag: "
+                       "unquoted text would be stored", where(fi, e.node), sample="encoded omitted / False / the caller's documented flag")
